@@ -148,6 +148,48 @@ theorem C02_usable {M : Type} {f : Framer M} (hs : PrefixStable f) (chunks : Lis
     feedAllFrom f (feedAll f chunks) [next] = feedAllFrom f (feed f [] chunks.flatten) [next] :=
   feedAll_then hs chunks next hok
 
+/-! ## Every stream (valid or not), and a layer above that fails -/
+
+/-- **no hypothesis on the stream**: for every byte stream and every segmentation the
+    messages delivered are those of the unsplit run and the connection ends closed by an
+    exception iff the unsplit run does (only the bytes left in a dead connection differ) -/
+theorem C02_any_stream {M : Type} {f : Framer M} (hs : PrefixStable f) (hnil : f.ext [] = .need)
+    (chunks : List Bytes) :
+    (feedAll f chunks).msgs = (feed f [] chunks.flatten).msgs ∧
+    (feedAll f chunks).err.isSome = (feed f [] chunks.flatten).err.isSome :=
+  feedAll_concat_msgs hs hnil chunks
+
+theorem C02_dataStream_any (chunks : List Bytes) :
+    (feedAll dataStream chunks).msgs = (feed dataStream [] chunks.flatten).msgs ∧
+    (feedAll dataStream chunks).err.isSome = (feed dataStream [] chunks.flatten).err.isSome :=
+  C02_any_stream dataStream_prefixStable
+    (by have h : PyatvModel.Gen.C02.dataHeaderLength = 32 := rfl; simp [dataStream, h]) chunks
+
+theorem C02_http_any (P : HttpParams) (chunks : List Bytes) :
+    (feedAll (http P) chunks).msgs = (feed (http P) [] chunks.flatten).msgs ∧
+    (feedAll (http P) chunks).err.isSome = (feed (http P) [] chunks.flatten).err.isSome :=
+  C02_any_stream (http_prefixStable P) (by simp [http]) chunks
+
+/-- **the layer above fails on a message, exception escapes** (data channel:
+    `handle_protobuf` raising leaves `data_received`, the transport is closed): for every
+    predicate `bad` saying on which messages the consumer raises and every segmentation,
+    the messages handed over before the failure and the fact that the connection is closed
+    are those of the unsplit stream.  (Transports that swallow the consumer's exception —
+    MRP, Companion, the HTTP server — frame independently of the consumer: `C02_mrp`,
+    `C02_companion`, `C02_httpServer` apply unchanged and `C02_delivered` covers what the
+    consumer saw.) -/
+theorem C02_consumer_fails {M : Type} {f : Framer M} (hs : PrefixStable f) (hnil : f.ext [] = .need)
+    (bad : M → Bool) (chunks : List Bytes) :
+    (feedAll (withConsumer f bad) chunks).msgs = (feed (withConsumer f bad) [] chunks.flatten).msgs ∧
+    (feedAll (withConsumer f bad) chunks).err.isSome
+      = (feed (withConsumer f bad) [] chunks.flatten).err.isSome :=
+  feedAll_concat_msgs (withConsumer_prefixStable hs bad) (withConsumer_nil bad hnil) chunks
+
+/-- non-vacuity: three MRP-framed messages, the consumer fails on the second; cut inside
+    it: first message delivered, run closed, third never handed over — as unsplit -/
+example : feedAll (withConsumer mrp (fun m => m == [7])) [[1, 5, 1], [7, 1, 9]] = ⟨[[5]], [1, 7, 1, 9], some .consumer⟩
+    ∧ (feed (withConsumer mrp (fun m => m == [7])) [] [1, 5, 1, 7, 1, 9]).msgs = [[5]] := by decide
+
 /-- **sends between reads**: any sequence of operations on one connection (reads
     interleaved with sends of the application, e.g. RAOP's periodic `/feedback` request
     while a response is half received) delivers what the unsplit stream delivers — in the
